@@ -220,7 +220,7 @@ pub fn build(spec: &BlindSpec) -> Flow {
             } else {
                 let sk = gen::secret_key(&mut p);
                 let pk = PublicKey::from_secret_key(secp, &sk);
-                let mut o = Output::new_explicit(spk(&mut p), v, *asset, Some(elements::bitcoin::PublicKey { inner: pk, compressed: true }));
+                let mut o = Output::new_explicit(crate::worlds::ct::blindable_script(&mut p), v, *asset, Some(elements::bitcoin::PublicKey { inner: pk, compressed: true }));
                 // the blinder index names the PARTY: any of its inputs will do, not only one of the same asset
                 let own: Vec<u32> = (0..owners.len()).filter(|i| owners[*i] == *party).map(|i| i as u32).collect();
                 o.blinder_index = Some(if p.coin() { idx } else { *p.pick(&own) });
